@@ -124,7 +124,7 @@ func metaAlphabet() []lx.Op {
 	return []lx.Op{
 		{Kind: "post", Name: "create-with-meta", Postings: []lx.P{p("world", "a", "USD", "10")}, Meta: map[string]string{"k": "v0"}},
 		{Kind: "post", Name: "create-backdated", Postings: []lx.P{p("world", "b", "USD", "10")}, TSOff: &back},
-		{Kind: "script", Name: "script-meta", Script: "send [USD 1] (\n source = @world\n destination = @a\n)\nset_tx_meta(\"k\", \"s\")\nset_account_meta(@a, \"role\", \"script\")"},
+		{Kind: "script", Name: "script-meta", Script: "send [USD 1] (\n source = @world\n destination = @a\n)\nset_tx_meta(\"k\", \"s\")\nset_account_meta(@a, \"role\", \"script\")", ScriptAccMeta: map[string]map[string]string{"a": {"role": "script"}}},
 		{Kind: "post", Name: "create-accmeta-param", Postings: []lx.P{p("world", "a", "USD", "1")}, AccMeta: map[string]map[string]string{"a": {"role": "param"}, "z": {"only": "meta"}}},
 		{Kind: "txmeta", Name: "txmeta1-k=v1", TxID: 1, Meta: map[string]string{"k": "v1"}},
 		{Kind: "txmeta", Name: "txmeta1-j=w", TxID: 1, Meta: map[string]string{"j": "w"}},
@@ -134,6 +134,10 @@ func metaAlphabet() []lx.Op {
 		{Kind: "accmeta", Name: "accmeta-new-q", Address: "q", Meta: map[string]string{"role": "q"}},
 		{Kind: "delaccmeta", Name: "delaccmeta-a-role", Address: "a", Key: "role"},
 		{Kind: "revert", Name: "revert1", TxID: 1, Force: true, Meta: map[string]string{"why": "test"}},
+		// the script and the request both give metadata to the SAME account, under different
+		// keys: both must be kept (seeded change C17b replaced the key-wise merge by maps.Copy)
+		{Kind: "script", Name: "script-meta+param-same-account", Script: "send [USD 1] (\n source = @world\n destination = @a\n)\nset_account_meta(@a, \"kyc\", \"done\")",
+			ScriptAccMeta: map[string]map[string]string{"a": {"kyc": "done"}}, AccMeta: map[string]map[string]string{"a": {"tier": "gold"}}},
 		// (appended last: other alphabets slice this one by index)
 		// post-dated, with metadata: its first revision is dated at its (future) timestamp,
 		// the later revisions at the (earlier) date of each write — revision order and date
@@ -150,7 +154,7 @@ func metaAlphabet() []lx.Op {
 func metaOnlyOps() []lx.Op {
 	return []lx.Op{
 		{Kind: "post", Name: "create-metaonly-param", Postings: []lx.P{p("world", "a", "USD", "2")}, AccMeta: map[string]map[string]string{"zz:last": {"only": "param"}, "m:mid": {"only": "param"}}},
-		{Kind: "script", Name: "script-metaonly", Script: "send [USD 2] (\n source = @world\n destination = @a\n)\nset_account_meta(@zz:script, \"only\", \"script\")\nset_account_meta(@b:mid, \"only\", \"script\")"},
+		{Kind: "script", Name: "script-metaonly", Script: "send [USD 2] (\n source = @world\n destination = @a\n)\nset_account_meta(@zz:script, \"only\", \"script\")\nset_account_meta(@b:mid, \"only\", \"script\")", ScriptAccMeta: map[string]map[string]string{"zz:script": {"only": "script"}, "b:mid": {"only": "script"}}},
 	}
 }
 
